@@ -203,7 +203,7 @@ class Stream:
         cmd, _, _, after = self.data[0]
         if self.acks_emitted < after and self.dev.strict_causality:
             return False
-        if cmd == b'WRTE' and self.awaiting_okay:
+        if cmd == b'WRTE' and self.awaiting_okay and self.dev.flow_control:
             return False
         return True
 
@@ -230,6 +230,7 @@ class SimDevice:
     def __init__(self, ctx, services, maxdata=4096, banner=b'device::\0', auth=None, rid_alloc=None, pick=None, gate=None, monitor=None, reorder=None):
         self.ctx = ctx
         self.eager = False
+        self.flow_control = True         # False: a (non-conforming, but seen in the wild) device that does not wait for the OKAY between its WRTEs
         self.strict_causality = True     # False: protocol.txt only (a device WRTE may even precede the OKAY for the host WRTE that caused it)
         self.version = VERSION           # arg0 of the device's CNXN (may be symbolic)
         self.reorder = reorder            # callable(stream, candidates) -> index : ack vs. data ordering where adbd leaves it free
